@@ -1425,7 +1425,9 @@ fn parse_deref_steps_list(
 {
 	let start = tokens.cursor().into();
 	let mut list = buffer.start_list();
-	for _ in 0..MAX_REFERENCE_DEPTH
+	// Up to MAX_REFERENCE_DEPTH steps are allowed; one more iteration is needed
+	// to see that there are no further steps.
+	for _ in 0..=MAX_REFERENCE_DEPTH
 	{
 		let step = if tokens.consume_optional(BaseToken::BracketLeft)
 		{
